@@ -395,7 +395,7 @@ func verifC34Build(t *testing.T, version uint, dup bool) *verifC34Fixture {
 }
 
 type verifC34Site struct {
-	op  string // "flip" | "trunc"
+	op  string // "flip" | "trunc" | "idx" (off = number of the blob whose index entry is damaged)
 	off int64
 	tag string
 }
@@ -417,6 +417,11 @@ func verifC34Sites(p *verifC34Pack) []verifC34Site {
 		verifC34Site{"flip", p.size - 5, "header.last"},
 		verifC34Site{"flip", p.size - 4, "header.length"})
 	sites = append(sites, verifC34Site{"trunc", 0, "to0"}, verifC34Site{"trunc", p.size - 1, "by1"})
+	// a damaged index over an intact pack: the entry of the first / last blob is one byte short
+	sites = append(sites, verifC34Site{"idx", 0, p.blobs[0].name + ".index-entry-short"})
+	if len(p.blobs) > 1 {
+		sites = append(sites, verifC34Site{"idx", int64(len(p.blobs) - 1), p.blobs[len(p.blobs)-1].name + ".index-entry-short"})
+	}
 	for _, b := range p.blobs {
 		end := int64(b.offset + b.length)
 		for _, d := range []int64{-1, 0, 1} {
@@ -461,6 +466,12 @@ func verifC34CaseN(t *testing.T, r *vh.Run, f *verifC34Fixture, dams []verifC34D
 			buf[d.site.off] ^= 0x01
 		case "trunc":
 			buf = buf[:d.site.off]
+		case "idx":
+			// the pack file stays intact; the index entry of its blob number `off` gets a wrong length
+			b := d.p.blobs[d.site.off]
+			rtest.OK(t, verifC34WithRepoMode(t, gopts, true, func(ctx context.Context, repo *repository.Repository) error {
+				return repository.VerifBreakIndexEntry(ctx, repo, d.p.id, b.h, -1)
+			}))
 		}
 		rtest.OK(t, os.WriteFile(packPath, buf, 0o600))
 		damaged[d.p.id] = true
